@@ -77,7 +77,9 @@ Example C07img_merge_sdim_partial_nonvacuous :
 Proof. eexists. eexists. split; [vm_compute; reflexivity|]. split; [discriminate | reflexivity]. Qed.
 
 Example C07img_split_nonvacuous :
-  exists ws, split_w jv_eqb JNull (exw [1; 2; 3; 4]%Z (Some 2)) None = Ok ws /\
+  let w := exw [1; 2; 3; 4]%Z (Some 2) in
+  wf_img (fst w) /\ shape (hdr_of (snd w)) = ishape (fst w) /\ sdim (hdr_of (snd w)) = islice (fst w) /\
+  exists ws, split_w jv_eqb JNull w None = Ok ws /\ length ws = 2 /\
              map (fun w => (ishape (fst w), shape (hdr_of (snd w)), sdim (hdr_of (snd w)), islice (fst w))) ws =
              [([2; 1; 1], [2; 1; 1], Some 2, Some 2); ([2; 1; 1], [2; 1; 1], Some 2, Some 2)].
-Proof. eexists. split; vm_compute; reflexivity. Qed.
+Proof. cbv zeta. split; [split; reflexivity|]. split; [reflexivity|]. split; [reflexivity|]. eexists. split; [vm_compute; reflexivity|]. split; reflexivity. Qed.
